@@ -132,10 +132,14 @@ inline Bytes build_fmt12(const std::vector<Grp12> &g) {
 }
 struct EncRec { int plat, enc; Bytes sub; };
 // records must be given sorted by (platform, encoding); subtables are laid out in record order
-inline Bytes build_cmap(const std::vector<EncRec> &recs) {
-    Bytes b; w16(b, 0); w16(b, recs.size()); size_t off = 4 + 8 * recs.size();
-    for (auto &r : recs) { w16(b, r.plat); w16(b, r.enc); w32(b, uint32_t(off)); off += r.sub.size(); }
-    for (auto &r : recs) b.insert(b.end(), r.sub.begin(), r.sub.end());
+// reversed_data: the subtables are stored in the opposite order of their encoding records (records stay sorted; OpenType does not tie the two orders)
+inline Bytes build_cmap(const std::vector<EncRec> &recs, bool reversed_data = false) {
+    Bytes b; w16(b, 0); w16(b, recs.size()); size_t off = 4 + 8 * recs.size(); std::vector<size_t> offs(recs.size());
+    if (!reversed_data) for (size_t i = 0; i < recs.size(); ++i) { offs[i] = off; off += recs[i].sub.size(); }
+    else for (size_t i = recs.size(); i-- > 0; ) { offs[i] = off; off += recs[i].sub.size(); }
+    for (size_t i = 0; i < recs.size(); ++i) { w16(b, recs[i].plat); w16(b, recs[i].enc); w32(b, uint32_t(offs[i])); }
+    if (!reversed_data) for (auto &r : recs) b.insert(b.end(), r.sub.begin(), r.sub.end());
+    else for (size_t i = recs.size(); i-- > 0; ) b.insert(b.end(), recs[i].sub.begin(), recs[i].sub.end());
     return b;
 }
 
